@@ -23,30 +23,64 @@ import (
 
 func init() { log.SetOutput(io.Discard) }
 
-// waitT bounds every wait of a scenario. Nothing in a passing case ever waits that long: the waits end as
-// soon as the awaited bytes/EOF have arrived; the bound is only reached when bytes are lost.
-const waitT = 3 * time.Second
+// Waiting. A scenario never sleeps to "let things happen": every wait ends on an observed event.
+//   - hardT bounds the waits for events that MUST happen whatever the code under test does with the bytes
+//     (the upstream has accepted, the proxy has come back for more input, a writer goroutine is done, ServeTCP has
+//     returned, an endpoint has seen the end of its stream). Hitting it is a harness error (`harness_error`, never a
+//     verdict): the machine is starved or the proxy hangs.
+//   - softT(attempt) bounds the waits for bytes the specification says must arrive before the closing phase may
+//     begin. Hitting it is not an error — the missing bytes show in the observation — but such a case is measured
+//     again in a fresh run (up to three attempts, the bound doubling each time), so a starved scheduler cannot turn
+//     into a verdict while a deterministic loss fails every attempt.
+const hardT = 20 * time.Second
+const waitT = 3 * time.Second // socket-level timeouts (dial, handshake reads)
 
-func waitUntil(d time.Duration, abort <-chan struct{}, f func() bool) bool {
+func softT(attempt int) time.Duration { return 3 * time.Second << uint(attempt-1) }
+
+const (
+	wOK = iota
+	wAborted
+	wTimeout
+)
+
+func waitFor(d time.Duration, abort <-chan struct{}, f func() bool) int {
 	dl := time.Now().Add(d)
 	for i := 0; ; i++ {
 		if f() {
-			return true
+			return wOK
 		}
 		if abort != nil {
 			select {
 			case <-abort:
-				return f()
+				if f() {
+					return wOK
+				}
+				return wAborted
 			default:
 			}
 		}
 		if time.Now().After(dl) {
-			return false
+			return wTimeout
 		}
 		if i < 200 {
 			time.Sleep(50 * time.Microsecond)
 		} else {
 			time.Sleep(time.Millisecond)
+		}
+	}
+}
+
+func waitUntil(d time.Duration, abort <-chan struct{}, f func() bool) bool {
+	return waitFor(d, abort, f) == wOK
+}
+
+func chanClosed(c <-chan struct{}) func() bool {
+	return func() bool {
+		select {
+		case <-c:
+			return true
+		default:
+			return false
 		}
 	}
 }
@@ -279,6 +313,8 @@ type tunOut struct {
 	UpEnd    string `json:"upend"`
 	BurstGot int    `json:"burst_got"` // bytes received behind the expected head (PROXY line + segments)
 	BurstOK  bool   `json:"burst_ok"`  // ... and they are exactly the first burst_got bytes of the burst
+	Attempts int    `json:"attempts"`  // how often the case was measured (an unexpected outcome is re-measured)
+	expected bool   // the harness's own comparison with the specification, only used to decide on a re-measurement
 	Lookup   string `json:"lookup"` // what the proxy's Lookup call returned: none (not called) | miss | hit
 	Served   bool   `json:"served"` // ServeTCP returned / client connection ended within the bound
 	Raddr    string `json:"raddr"`  // in.RemoteAddr().String()
@@ -310,7 +346,37 @@ func helloComplete(s []byte) bool {
 	return rec > 0 && rec <= 16384 && hs > 0 && hs <= rec-4 && len(s) >= hs+9
 }
 
+// runTunnel measures a case; an outcome that is not the expected one (or a harness timeout) is measured again in
+// a fresh run, at most three attempts. A deterministic failure fails every attempt; `attempts` is recorded.
 func runTunnel(raw json.RawMessage) (interface{}, error) {
+	var out tunOut
+	var err error
+	for a := 1; a <= 3; a++ {
+		var o interface{}
+		o, err = runTunnelOnce(raw, a)
+		if err != nil {
+			if _, timeout := err.(harnessTimeout); timeout {
+				continue
+			}
+			return nil, err // malformed input
+		}
+		out = o.(tunOut)
+		out.Attempts = a
+		if out.expected {
+			break
+		}
+	}
+	if err != nil {
+		return nil, err
+	}
+	return out, nil
+}
+
+type harnessTimeout string
+
+func (h harnessTimeout) Error() string { return "harness timeout waiting for " + string(h) }
+
+func runTunnelOnce(raw json.RawMessage, attempt int) (interface{}, error) {
 	if os.Getenv("C09_TIMING") != "" {
 		t0 := time.Now()
 		defer func() {
@@ -499,13 +565,24 @@ func runTunnel(raw json.RawMessage) (interface{}, error) {
 	}
 	expectTunnel := in.Routed && (in.Path != "sni" || helloComplete(cstream))
 
+	var herr error
+	must := func(what string, st int) {
+		if st == wTimeout && herr == nil {
+			herr = harnessTimeout(what)
+		}
+	}
+
 	// phase A, upstream side
+	uwritten := make(chan struct{})
+	giveUp := make(chan struct{})
+	defer close(giveUp)
 	go func() {
+		defer close(uwritten)
 		select {
 		case <-up.accepted:
 			writeSegs(up.ep.c(), usegs, false)
 		case <-done:
-		case <-time.After(2 * waitT):
+		case <-giveUp:
 		}
 	}()
 
@@ -515,13 +592,10 @@ func runTunnel(raw json.RawMessage) (interface{}, error) {
 	// by what follows. (Real client sockets finish by FIN, which follows the data.) Upstream→client: the
 	// client has counted the bytes.
 	if sc == nil {
-		select {
-		case <-cwritten:
-		case <-time.After(4 * waitT):
-		}
+		must("the client's writes", waitFor(hardT, nil, chanClosed(cwritten)))
 	}
 	if sc != nil && hold >= 0 {
-		waitUntil(waitT, done, sc.drained)
+		must("the proxy to take the first segments", waitFor(hardT, done, sc.drained))
 	}
 	if sc != nil {
 		if hold >= 0 {
@@ -530,11 +604,14 @@ func runTunnel(raw json.RawMessage) (interface{}, error) {
 			sc.unhold()
 		}
 		if expectTunnel {
-			waitUntil(waitT, done, up.isAccepted)
+			must("the upstream to accept", waitFor(hardT, done, up.isAccepted))
 		}
-		waitUntil(4*waitT, done, func() bool { return sc.drained() && sc.nPulled() >= len(cstream)+in.Burst })
+		must("the proxy to take every client segment", waitFor(hardT, done, func() bool { return sc.drained() && sc.nPulled() >= len(cstream)+in.Burst }))
 	} else if expectTunnel {
-		waitUntil(waitT, done, up.isAccepted)
+		must("the upstream to accept", waitFor(hardT, done, up.isAccepted))
+	}
+	if up.isAccepted() {
+		must("the upstream's writes", waitFor(hardT, nil, chanClosed(uwritten)))
 	}
 	if sc == nil && in.Order == "upstream" && expectTunnel {
 		// (corpus/replay only) real client socket and the upstream finishing first: count bytes
@@ -542,10 +619,13 @@ func runTunnel(raw json.RawMessage) (interface{}, error) {
 		if in.Pxy {
 			expUp += len(fmt.Sprintf("PROXY TCP4 %s %s %d %d\r\n", raddr.IP, laddr.IP, raddr.Port, laddr.Port))
 		}
-		waitUntil(waitT, nil, func() bool { return up.ep.n() >= expUp })
+		waitFor(softT(attempt), nil, func() bool { return up.ep.n() >= expUp })
 	}
-	if expectTunnel {
-		waitUntil(waitT, done, func() bool { return clientRecv() >= ulen })
+	if expectTunnel && in.Order != "upstream" {
+		// the client is about to finish: what the upstream has sent must have arrived first (bytes still in
+		// flight towards a side that has finished may legitimately be dropped). When the upstream finishes first
+		// its FIN follows its data, nothing to wait for.
+		waitFor(softT(attempt), done, func() bool { return clientRecv() >= ulen })
 	}
 
 	served := true
@@ -581,33 +661,36 @@ func runTunnel(raw json.RawMessage) (interface{}, error) {
 	case "client":
 		finishClient()
 		if up.isAccepted() {
-			waitUntil(waitT, nil, up.ep.ended)
+			must("the upstream to see the end of the client's stream", waitFor(hardT, nil, up.ep.ended))
 			finishUpstream()
 		}
-		served = waitUntil(waitT, nil, clientEnded)
 	case "upstream":
 		if up.isAccepted() {
 			finishUpstream()
 		} else {
 			finishClient()
 		}
-		served = waitUntil(waitT, nil, clientEnded)
 	case "halfclose":
 		finishClient()
 		if up.isAccepted() {
-			waitUntil(waitT, nil, up.ep.ended)
+			must("the upstream to see the end of the client's stream", waitFor(hardT, nil, up.ep.ended))
 			writeSegs(up.ep.c(), reply, false)
 			finishUpstream()
 		}
-		served = waitUntil(waitT, nil, clientEnded)
 	}
+	st := waitFor(hardT, nil, clientEnded)
+	must("the proxy to end the client's connection", st)
+	served = st == wOK
 	if sc != nil {
 		sc.Close()
 	} else {
 		cc.Close()
 	}
 	if up.isAccepted() {
-		waitUntil(waitT, nil, up.ep.ended)
+		must("the upstream to see its connection end", waitFor(hardT, nil, up.ep.ended))
+	}
+	if herr != nil {
+		return nil, herr
 	}
 	upb, upend := up.ep.snapshot()
 	var clb []byte
@@ -626,7 +709,32 @@ func runTunnel(raw json.RawMessage) (interface{}, error) {
 	}
 	bgot, bok := burstCheck(upb[headLen:], in.BurstSeed)
 	upb = upb[:headLen]
-	return tunOut{Up: hx2(upb), Cl: hx2(clb), Accepted: up.isAccepted(), UpEnd: upend, Served: served,
+	// the harness's own reading of the specification, only to decide whether to measure again
+	wantCl := []byte{}
+	for _, u := range usegs {
+		wantCl = append(wantCl, u...)
+	}
+	if in.Order == "halfclose" {
+		for _, u := range reply {
+			wantCl = append(wantCl, u...)
+		}
+	}
+	wantUp := []byte{}
+	if in.Pxy {
+		fam := 6
+		if raddr.IP.To4() != nil {
+			fam = 4
+		}
+		rh, _, _ := net.SplitHostPort(raddr.String())
+		lh, _, _ := net.SplitHostPort(laddr.String())
+		wantUp = []byte(fmt.Sprintf("PROXY TCP%d %s %s %d %d\r\n", fam, rh, lh, raddr.Port, laddr.Port))
+	}
+	wantUp = append(wantUp, cstream...)
+	expected := !expectTunnel
+	if lookupState.Load() == 2 {
+		expected = bytes.Equal(upb, wantUp) && bytes.Equal(clb, wantCl) && bgot == in.Burst && bok
+	}
+	return tunOut{expected: expected, Up: hx2(upb), Cl: hx2(clb), Accepted: up.isAccepted(), UpEnd: upend, Served: served,
 		BurstGot: bgot, BurstOK: bok,
 		Lookup: []string{"none", "miss", "hit"}[lookupState.Load()],
 		Raddr: raddr.String(), Laddr: laddr.String()}, nil
@@ -664,7 +772,7 @@ func clientHello(host string, variant int) []byte {
 		a.Close()
 	}()
 	hdr := make([]byte, 5)
-	b.SetReadDeadline(time.Now().Add(waitT))
+	b.SetReadDeadline(time.Now().Add(hardT))
 	if _, err := io.ReadFull(b, hdr); err != nil {
 		b.Close()
 		return nil
